@@ -1,28 +1,9 @@
 //! host: src/kdf/argon2.rs
-//! C11 (claimed conjuncts): memory geometry from (m, p), the reference-block index mapping of RFC 9106 3.4.2 for every
-//! position and pseudo-random value, and the BlaMka permutation P of 3.6, each against the RFC text written out in the
-//! harness; complete over their integer domains (loop-free).  The end-to-end function is not claimed (DESIGN.md C11).
+//! C11: contracts that the Verus unit `argon2` takes as contract-only stubs, on the real functions: the byte views of a block
+//! (unsafe pointer casts; little-endian words), and the refusal of invalid parameters.  The algorithm itself (geometry, index
+//! mapping, P, G, segment filling, H', H_0, the whole function) is proved by Verus against RFC 9106 (units/argon2.vtpl).
 use super::*;
 
-// RFC 9106 3.2: m' = 4*p*floor(m / 4p) with m raised to 8p if smaller; lanes of q = m'/p blocks in 4 slices of q/4
-// @harness props=C11,C20 kind=full tier=quick timeout=300
-#[kani::proof]
-fn argon2_memory_geometry() {
-    let m: u32 = kani::any();
-    let p: u32 = kani::any();
-    kani::assume(p >= 1 && p < 0x1000000);
-    let params = Params::argon2id().parallelism(p).unwrap().memory_kb(m).unwrap();
-    let mm = if m < 8 * p { 8 * p } else { m };
-    let mprime = 4 * p * (mm / (4 * p));
-    assert!(params.parallelism.get() == p && params.memory_kb == mm);
-    assert!(params.memory_blocks == mprime);
-    assert!(params.lane_length == mprime / p && params.segment_length == mprime / p / 4);
-    assert!(params.segment_length >= 2);
-    // order of the two setters does not matter
-    let q = Params::argon2id().memory_kb(m).unwrap().parallelism(p).unwrap();
-    assert!(q.memory_blocks == mprime && q.lane_length == params.lane_length && q.segment_length == params.segment_length && q.memory_kb == mm);
-    kani::cover!(true);
-}
 // invalid parameters are reported, never silently adjusted
 // @harness props=C11,C20 kind=full tier=quick timeout=300
 #[kani::proof]
@@ -36,73 +17,61 @@ fn argon2_params_reject_invalid() {
     assert!(Params::argon2d().iterations(t).is_err() == (t == 0));
     kani::cover!(true);
 }
-/// RFC 9106 3.4.2: size W of the reference area for the block at (pass r, slice s, index i in segment), then
-/// x = J1^2 / 2^32, y = (W * x) / 2^32, zz = W - 1 - y, start = first block after the current slice (later passes), l' = (start + zz) mod q
-fn spec_index_alpha(seg: u32, q: u32, pass: u32, slice: u32, index: u32, j1: u32, same_lane: bool) -> u32 {
-    let finished = if pass == 0 { slice * seg } else { q - seg };       // blocks of the lane computed in finished slices
-    let w: u64 = (if same_lane { finished + index - 1 } else if index == 0 { finished - 1 } else { finished }) as u64;
-    let x = ((j1 as u64) * (j1 as u64)) >> 32;
-    let y = (w * x) >> 32;
-    let zz = w - 1 - y;
-    let start: u64 = if pass != 0 && slice != 3 { ((slice + 1) * seg) as u64 } else { 0 };
-    ((start + zz) % (q as u64)) as u32
-}
-// @harness props=C11,C20 kind=full tier=quick timeout=600
+// Block::as_u8: byte k of the view is byte k % 8 (little-endian) of word k / 8
+// @harness props=C11 kind=full tier=quick timeout=900
 #[kani::proof]
-fn argon2_index_alpha_matches_rfc() {
-    let seg: u32 = kani::any();
-    kani::assume(seg >= 2 && seg <= 0x3fff_ffff);           // 4 * seg fits a u32 (lane_length is a u32 in Params)
-    let mut params = Params::argon2d();
-    params.segment_length = seg;
-    params.lane_length = 4 * seg;
-    let pos = BlockPos { pass: kani::any(), lane: kani::any(), slice: kani::any(), index: kani::any() };
-    let same_lane: bool = kani::any();
-    kani::assume(pos.slice < 4 && pos.index < seg);
-    // well-formed positions: the first two blocks of a lane are not computed this way; across lanes only finished slices exist
-    kani::assume(!(pos.pass == 0 && pos.slice == 0) || (pos.index >= 2 && same_lane));
-    let j1: u32 = kani::any();
-    let got = index_alpha(&params, &pos, j1, same_lane);
-    assert!(got < params.lane_length);
-    assert!(got == spec_index_alpha(seg, 4 * seg, pos.pass, pos.slice, pos.index, j1, same_lane));
+#[kani::unwind(1026)]
+fn argon2_block_as_u8_is_le_words() {
+    let w: [u64; 128] = kani::any();
+    let b = Block(w);
+    let v = b.as_u8();
+    assert!(v.len() == 1024);
+    let mut k = 0;
+    while k < 1024 {
+        assert!(v[k] == (w[k / 8] >> (8 * (k % 8))) as u8);
+        k += 1;
+    }
     kani::cover!(true);
 }
-/// RFC 9106 3.6: GB with the multiplication-hardened addition a + b + 2 * trunc(a) * trunc(b) mod 2^64 and rotations 32, 24, 16, 63
-fn spec_gb(v: &mut [u64; 16], a: usize, b: usize, c: usize, d: usize) {
-    fn f(x: u64, y: u64) -> u64 {
-        x.wrapping_add(y).wrapping_add(2u64.wrapping_mul((x & 0xffff_ffff).wrapping_mul(y & 0xffff_ffff)))
-    }
-    v[a] = f(v[a], v[b]);
-    v[d] = (v[d] ^ v[a]).rotate_right(32);
-    v[c] = f(v[c], v[d]);
-    v[b] = (v[b] ^ v[c]).rotate_right(24);
-    v[a] = f(v[a], v[b]);
-    v[d] = (v[d] ^ v[a]).rotate_right(16);
-    v[c] = f(v[c], v[d]);
-    v[b] = (v[b] ^ v[c]).rotate_right(63);
-}
-// @harness props=C11 kind=full tier=quick timeout=600
+// Block::as_u8_mut: writing bytes through the view makes word i the little-endian value of bytes 8i..8i+8
+// @harness props=C11 kind=full tier=quick timeout=900
 #[kani::proof]
-#[kani::unwind(17)]
-fn argon2_permutation_p_matches_rfc() {
-    let v0: [u64; 16] = kani::any();
-    let mut v = v0;
+#[kani::unwind(1026)]
+fn argon2_block_as_u8_mut_writes_le_words() {
+    let mut b = Block::new();
+    let bytes: [u8; 1024] = kani::any();
     {
-        let [a0, a1, a2, a3, a4, a5, a6, a7, a8, a9, a10, a11, a12, a13, a14, a15] = &mut v;
-        p(a0, a1, a2, a3, a4, a5, a6, a7, a8, a9, a10, a11, a12, a13, a14, a15);
+        let v = b.as_u8_mut();
+        let mut k = 0;
+        while k < 1024 {
+            v[k] = bytes[k];
+            k += 1;
+        }
     }
-    let mut e = v0;
-    spec_gb(&mut e, 0, 4, 8, 12);
-    spec_gb(&mut e, 1, 5, 9, 13);
-    spec_gb(&mut e, 2, 6, 10, 14);
-    spec_gb(&mut e, 3, 7, 11, 15);
-    spec_gb(&mut e, 0, 5, 10, 15);
-    spec_gb(&mut e, 1, 6, 11, 12);
-    spec_gb(&mut e, 2, 7, 8, 13);
-    spec_gb(&mut e, 3, 4, 9, 14);
     let mut i = 0;
-    while i < 16 {
-        assert!(v[i] == e[i]);
+    while i < 128 {
+        let mut e: u64 = 0;
+        let mut j = 0;
+        while j < 8 {
+            e |= (bytes[8 * i + j] as u64) << (8 * j);
+            j += 1;
+        }
+        assert!(b[i] == e);
         i += 1;
     }
+    kani::cover!(true);
+}
+// Memory::new: p * q blocks, all zero (contract-only stub: vec![..; n].into_boxed_slice())
+// @harness props=C11,C20 kind=bounded bound=m=8,p=1 tier=quick timeout=900
+#[kani::proof]
+#[kani::unwind(130)]
+fn argon2_memory_new_is_zero() {
+    let params = Params::argon2d().memory_kb(8).unwrap();
+    let m = Memory::new(&params);
+    assert!(m.blocks.len() == 8 && m.lane_length == 8);
+    let i: usize = kani::any();
+    let k: usize = kani::any();
+    kani::assume(i < 8 && k < 128);
+    assert!(m.blocks[i][k] == 0);
     kani::cover!(true);
 }
